@@ -181,6 +181,11 @@ class Run:
             err = self.ref.step(x, y, calls, eff)
             if err:
                 return f'C17:{self.cls}:resume:{err[0]}', f'call {t + 1}: {err[1]}'
+            if self.mode == 'float' and getattr(self.ref, 'ill_conditioned', False):
+                # float twin whose marginal-prediction normaliser is (near) zero: a discontinuity, float and exact values legitimately
+                # part ways from here on (same rule as C03); the snapshot comparisons around the faults stay in force
+                self.float_discarded = True
+                return None
             want = self.ref.expected()
             tol = 64 * (d + 2) * (t + 2) * refx.EPS * self.ref.loss.scale
             for a in want:
